@@ -74,6 +74,14 @@ def judge(ctx, execs, tally):
                       "reference_feasible_matchings": len(feas)})
 
 
+INTERLEAVE_OPTS = [
+    (True, False, False, ()), (True, True, False, ()), (True, False, True, ()),
+    (True, True, True, ()), (True, False, False, (("maxsize", ()),)),
+    (True, False, False, (("mincost", (1, 1)),)), (False, False, False, ()),
+    (True, False, False, (("gre", ()),)), (True, False, False, (("lsb", ()),)),
+]
+
+
 def main(tier):
     t0 = time.time()
     seed = evidence.seed()
@@ -81,6 +89,12 @@ def main(tier):
     work = sweep.make_work(judge, conform_rate=(97 if tier == "quick" else 41),
                            seed=seed)
     tally = pool.run(work, items, chunksize=4)
+    from .. import interleave
+    it = sweep.interleave_items(tier, INTERLEAVE_OPTS)
+    tally.merge(pool.run(interleave.work_lp(judge, PID), it, chunksize=8))
+    desc.append({"family": "two Solver objects alive at once (both constructed first, solved in "
+                           "either order): all ordered pairs of %d option vectors on small instances"
+                           % len(INTERLEAVE_OPTS), "items": len(it)})
     c = tally.c
     coverage = {
         "states": c.get("executions", 0),
@@ -100,6 +114,8 @@ def main(tier):
         "max_fanout": c.get("max_fanout", 0),
         "read_certificate_failed_items": c.get("read_certificate_failed_items", 0),
         "conformance_runs_real_cbc": c.get("conformance_runs", 0),
+        "interleaved_two_solver_histories": c.get("interleaved_histories", 0),
+        "sentinel_rechecks_from_non_initial_process_state": c.get("sentinel_rechecks", 0),
         "families": desc,
     }
     if not c.get("feasible_items") or not c.get("infeasible_items"):
